@@ -563,7 +563,47 @@ def explore_abort() -> Dict[str, Any]:
                                               what=f"{engine}: {clause}: {detail}", size=1, replay=dict(kind="abort", case=["raise-then-abort"], engine=engine)))
         finally:
             d.close()
-    res["samples"].append(dict(family="ABORT", cases=len(abort_cases()) + 1))
+    # ---- history memory that ALREADY holds a record: an aborted leave must put the earlier record back (not only remove a
+    #      first record), and a later history transition must behave as in the run without the aborted event
+    for engine in ENGINES:
+        for fault_pos in ("transition", "entry"):
+            bad_tr = {"target": "#m.Q", "actions": ["nope"]} if fault_pos == "transition" else {"target": "#m.R"}
+            cfg = {"id": "m", "initial": "P", "states": {
+                "P": {"initial": "a", "on": {"OUT": "#m.Q", "BAD": bad_tr, "UNDO": "#m.P.hist"},
+                      "states": {"a": {"on": {"NEXT": "b"}}, "b": {"on": {"NEXT": "c"}}, "c": {}, "hist": {"type": "history"}}},
+                "Q": {"on": {"BACK": "#m.P"}},
+                "R": {"entry": ["nope"]}}}
+            runs = {}
+            for with_abort in (False, True):
+                h = Harness(cfg, with_plugin=True, threads=True, budget=3000, missing_actions=["nope"])
+                d = h.driver(engine)
+                try:
+                    res["executions"] += 1
+                    d.start()
+                    for ev in ("OUT", "BACK", "NEXT"):       # history of P now holds [a]; P is in b
+                        d.send(ev)
+                    mem_before = d.observe()[1]
+                    if with_abort:
+                        d.send("BAD")
+                        d.settle()
+                    mem_after = d.observe()[1]
+                    d.send("UNDO")
+                    d.settle()
+                    runs[with_abort] = (mem_before, mem_after, d.observe()[0])
+                finally:
+                    d.close()
+            res["evaluations"] += 1
+            res["distinct_count"] += 1
+            probs = []
+            if runs[True][1] != runs[True][0]:
+                probs.append(("history-not-restored", f"an existing history record {runs[True][0]} became {runs[True][1]} through an aborted transition"))
+            if runs[True][2] != runs[False][2]:
+                probs.append(("aborted-transition-changed-a-later-history-transition", f"UNDO ends in {runs[True][2]}, without the aborted event in {runs[False][2]}"))
+            for clause, detail in probs:
+                res["violations"].append(dict(signature=f"C07|{clause}|{engine}|existing-record", clause=clause,
+                                              what=f"{engine}: {clause}: {detail}; OUT, BACK, NEXT, BAD [aborts at the {fault_pos} position], UNDO",
+                                              size=1, replay=dict(kind="abort", case=["history-existing-record"], engine=engine)))
+    res["samples"].append(dict(family="ABORT", cases=len(abort_cases()) + 5))
     return res
 
 
